@@ -24,6 +24,15 @@
 (* deviations from the meaning are named Dev_*.  The constant Bug switches *)
 (* in seeded transcription errors (negative controls of the refinement     *)
 (* check).                                                                 *)
+(*                                                                         *)
+(* Round 2.  The input of differentiate() is a graph of Python OBJECTS,    *)
+(* not a tree of values: a subtree that occurs several times may be one    *)
+(* shared object or several equal objects (Repeated, ShareVariants - the   *)
+(* generator marks which, the driver builds accordingly), and a mapper     *)
+(* instance that is used again carries its CSE cache from call to call     *)
+(* (C10_Hist.tla).  The meaning (DEval) depends on neither; the rules run  *)
+(* in a context Cx = [ns, sh, cse]: sh = the subtrees that are one shared  *)
+(* object, cse = what the mapper's cache answers for a CSE node.           *)
 (***************************************************************************)
 EXTENDS C10_Ops
 CONSTANT Bug
@@ -252,19 +261,14 @@ Dev_WrappedConstantExponent(e, v) == e.t = "Power" /\ ~Occurs(v, e.b) /\ HasWrap
 Dev_LogOfIntegerConstant(par) ==
     par.t = "Const" /\ par.v.k = "int" /\ par.v.n # 1
 
-\* map_math_functions_by_name(i, func, pars, allowed_nonsmoothness)
-FunctionMap(func, pars, ns) ==
+\* map_math_functions_by_name(i, func, pars, allowed_nonsmoothness); i = 1.. (Python's i + 1)
+FunctionMap(i, func, pars, ns) ==
     LET nm == MathName(func) np == Len(pars) IN
     IF nm = "sin" /\ np = 1 THEN (IF Bug = "table_sin" THEN MCall("sin", pars) ELSE MCall("cos", pars))
     ELSE IF nm = "cos" /\ np = 1 THEN (IF Bug = "table_cos_sign" THEN MCall("sin", pars)
                                        ELSE NegOf(MCall("sin", pars)))
     ELSE IF nm = "tan" /\ np = 1 THEN Op("+", Op("**", MCall("tan", pars), KI(2)), KI(1))
-    ELSE IF nm = "log" /\ np = 1 THEN
-        \* primitives.quotient(1, pars[0])
-        (IF IsC(pars[1]) /\ MinusOneIsZero(pars[1]) THEN KI(1)
-         ELSE IF Dev_LogOfIntegerConstant(pars[1])
-              THEN Raise(IF pars[1].v.n = 0 THEN "RuntimeError" ELSE "AttributeError")
-         ELSE B("Quotient", KI(1), pars[1]))
+    ELSE IF nm = "log" /\ np = 1 THEN B("Quotient", KI(1), pars[1])   \* primitives.Quotient(1, pars[0])
     ELSE IF nm = "exp" /\ np = 1 THEN MCall("exp", pars)
     ELSE IF nm = "sinh" /\ np = 1 THEN MCall("cosh", pars)
     ELSE IF nm = "cosh" /\ np = 1 THEN MCall("sinh", pars)
@@ -275,33 +279,48 @@ FunctionMap(func, pars, ns) ==
          THEN MCall("copysign", << KI(1), pars[1] >>)        \* pymbolic.functions.sign
          ELSE Raise("ValueError"))
     ELSE IF nm = "copysign" /\ np = 2 THEN
-        \* named deviation Dev_CopysignBothArgumentsZero: the table answers 0 for either argument
-        (IF ns = "discontinuous" THEN KI(0) ELSE Raise("ValueError"))
+        (IF ns # "discontinuous" THEN Raise("ValueError")
+         ELSE IF i = 2 THEN KI(0)
+         ELSE Op("*", MCall("copysign", << KI(1), pars[1] >>), MCall("copysign", << KI(1), pars[2] >>)))
     ELSE Raise("RuntimeError")
 
-RECURSIVE Rec(_, _, _)
-Rec(e, v, ns) ==
+\* the context the rules run in: the non-smoothness setting, the subtrees that are ONE shared
+\* object wherever they occur (the others are equal but distinct objects), and the answers of the
+\* mapper's CSE cache (a function from CSE nodes to derivative trees; empty for a fresh mapper)
+NoCache == [s \in {} |-> 0]
+Cx(ns, sh, cse) == [ns |-> ns, sh |-> sh, cse |-> cse]
+\* two factors of one product are the same Python object
+SameObject(a, b, cx) == a = b /\ a \in cx.sh
+
+RECURSIVE RecX(_, _, _)
+RecX(e, v, cx) ==
+    LET ns == cx.ns
+        Rc(ee, vv, nn) == RecX(ee, vv, cx) IN
     CASE e.t = "Const" -> KI(0)
       [] e.t \in {"Var", "Sub"} -> IF SameTree(e, v) THEN KI(1) ELSE KI(0)
       [] e.t = "Call" ->
-            LET fm == FunctionMap(e.f, e.c, ns)
-                F(i) == IF IsRaise(fm) THEN fm ELSE Op("*", fm, Rec(e.c[i], v, ns))
+            LET F(i) == LET fm == FunctionMap(i, e.f, e.c, ns) IN
+                        IF IsRaise(fm) THEN fm ELSE Op("*", fm, Rc(e.c[i], v, ns))
                 ts == MapSeq(Len(e.c), F)
             IN FirstRaise(ts, FlattenedSum(ts))
       [] e.t = "Sum" ->
-            LET F(i) == Rec(e.c[i], v, ns)
+            LET F(i) == Rc(e.c[i], v, ns)
                 ds == MapSeq(Len(e.c), F)
             IN FirstRaise(ds, FlattenedSum(ds))
       [] e.t = "Product" ->
             LET n == Len(e.c)
-                F(i) == Rec(e.c[i], v, ns)
+                F(i) == Rc(e.c[i], v, ns)
                 ds == MapSeq(n, F)
+                \* seeded design error "product_identity": the factor to differentiate is found by
+                \* object identity, so every occurrence of a shared factor is differentiated
+                Fac(i, j) == IF j = i \/ (Bug = "product_identity" /\ SameObject(e.c[j], e.c[i], cx))
+                             THEN ds[j] ELSE e.c[j]
                 G(i) == IF IsRaise(ds[i]) THEN ds[i]
-                        ELSE FlattenedProduct(SubSeq(e.c, 1, i - 1) \o << ds[i] >> \o SubSeq(e.c, i + 1, n))
+                        ELSE LET H(j) == Fac(i, j) IN FlattenedProduct(MapSeq(n, H))
                 ts == MapSeq(n, G)
             IN FirstRaise(ts, FlattenedSum(ts))
       [] e.t = "Quotient" ->
-            LET f == e.a g == e.b df == Rec(f, v, ns) dg == Rec(g, v, ns) IN
+            LET f == e.a g == e.b df == Rc(f, v, ns) dg == Rc(g, v, ns) IN
             IF IsRaise(df) THEN df ELSE IF IsRaise(dg) THEN dg
             ELSE IF ~Truth(df) /\ ~Truth(dg) THEN KI(0)
             ELSE IF ~Truth(df) THEN
@@ -310,7 +329,7 @@ Rec(e, v, ns) ==
             ELSE Op("/", Op(IF Bug = "quot_sign" THEN "+" ELSE "-", Op("*", df, g), Op("*", dg, f)),
                          Op("**", g, KI(2)))
       [] e.t = "Power" ->
-            LET f == e.a g == e.b df == Rec(f, v, ns) dg == Rec(g, v, ns)
+            LET f == e.a g == e.b df == Rc(f, v, ns) dg == Rc(g, v, ns)
                 lg == Call(V("log"), << f >>)
                 t1 == Op("*", Op("*", lg, Op("**", f, g)), dg)
                 t2 == Op("*", Op("*", g, Op("**", f, IF Bug = "pow_exp" THEN g ELSE Op("-", g, KI(1)))), df)
@@ -321,16 +340,45 @@ Rec(e, v, ns) ==
                ELSE Op("+", t1, t2)
       [] e.t = "If" ->
             IF ns # "discontinuous" THEN Raise("ValueError")
-            ELSE LET a == Rec(e.th, v, ns) b == Rec(e.el, v, ns) IN
+            ELSE LET a == Rc(e.th, v, ns) b == Rc(e.el, v, ns) IN
                  IF IsRaise(a) THEN a ELSE IF IsRaise(b) THEN b ELSE IfE(e.i, a, b)
       [] e.t = "CSE" ->
-            LET d == Rec(IF Bug = "cse_drop_chain" /\ e.a.t = "Call" THEN e.a.c[1] ELSE e.a, v, ns) IN
+            \* CSECachingMapperMixin.map_common_subexpression: the cache answers, else uncached
+            IF e \in DOMAIN cx.cse THEN cx.cse[e] ELSE
+            LET d == Rc(IF Bug = "cse_drop_chain" /\ e.a.t = "Call" THEN e.a.c[1] ELSE e.a, v, ns) IN
             IF IsRaise(d) THEN d ELSE CSE(d, e.prefix, e.scope)
       [] OTHER -> Raise("ValueError")               \* map_foreign / no mapper method
 
+\* a fresh mapper, nothing shared
+Rec(e, v, ns) == RecX(e, v, Cx(ns, {}, NoCache))
 DiffRules(e, v, ns) == Rec(e, v, ns)
-Predicted(e, v, ns) == LET r == DiffRules(e, v, ns) IN
-                       IF IsRaise(r) THEN [r |-> "err", v |-> Err(r.e)] ELSE [r |-> "ok", e |-> r]
+AsOut(r) == IF IsRaise(r) THEN [r |-> "err", v |-> Err(r.e)] ELSE [r |-> "ok", e |-> r]
+PredictedX(e, v, cx) == AsOut(RecX(e, v, cx))
+
+(***************************************************************************)
+(* Object sharing.  A subtree that occurs more than once in the input      *)
+(* (expression and differentiation variable together; constants are plain  *)
+(* Python numbers) can be one object or several equal ones.  A sharing     *)
+(* variant is the set of repeated subtrees that are ONE object each.       *)
+(***************************************************************************)
+RECURSIVE OccCount(_, _)
+OccCount(s, e) == (IF e = s THEN 1 ELSE 0)
+                  + LET ks == Kids(e)
+                        RECURSIVE Go(_)
+                        Go(i) == IF i > Len(ks) THEN 0 ELSE OccCount(s, ks[i]) + Go(i + 1)
+                    IN Go(1)
+Repeated(e, v) == { s \in SubExprs(e) \cup SubExprs(v) :
+                       s.t # "Const" /\ OccCount(s, e) + OccCount(s, v) >= 2 }
+IsLeafNode(s) == Len(Kids(s)) = 0
+\* nothing shared (a tree rebuilt node by node), everything shared (built with Python variables:
+\* u = x + y; u*u), only the leaves, only the compound subtrees, only the outermost ones;
+\* wide: also every single subtree on its own
+ShareVariants(e, v, wide) ==
+    LET R == Repeated(e, v)
+        outer == { s \in R : ~\E o \in R : o # s /\ OccCount(s, o) > 0 }
+    IN { {}, R, { s \in R : IsLeafNode(s) }, { s \in R : ~IsLeafNode(s) }, outer }
+       \cup (IF wide THEN { {s} : s \in R } ELSE {})
+Predicted(e, v, ns) == AsOut(DiffRules(e, v, ns))
 
 (***************************************************************************)
 (* The judgement (shared by the model check and the trace judge)           *)
